@@ -1,5 +1,5 @@
 -------------------------------- MODULE IoWait --------------------------------
-(* DRAFT (round 0).  The edge-triggered readiness protocol of src/io/sys/unix:
+(* The edge-triggered readiness protocol of src/io/sys/unix:
      caller  (net/tcp.rs read + net/socket_read.rs done()):
              reset flag; syscall; on EAGAIN yield -> [worker: subscribe] ; resumed: loop {
              clear flag; syscall; on EAGAIN: re-check flag ? continue : yield }
